@@ -23,6 +23,10 @@ BigViol(r) ==
       conj == <<
         <<"C16", "more_than_queue_len_plus_one_data_sets", r.nsetinit <= r.Q + 1>>,
         <<"C16", "record_outputs_not_reused", r.nrecinit <= (r.Q + 1) * Max({r.set_sizes[i] : i \in 1..Len(r.set_sizes)} \cup {0})>>,
+        \* all records of these inputs fit into the reader's buffer, which therefore never grows; a record set's buffer is a
+        \* copy of it (at most twice as large through Vec's amortised growth), however long the input is
+        <<"C16", "record_set_memory_grows_with_the_input", "maxsetcap" \notin DOMAIN r \/ r.maxsetcap <= 2 * r.cap>>,
+        <<"C16", "reader_ahead_of_consumer", "lead" \notin DOMAIN r \/ r.lead <= r.Q>>,
         <<"C07", "not_every_record_delivered", res.k # "none" \/ r.ncalls = SumSeq(r.set_sizes, 1)>>,
         <<"C07", "output_not_computed_for_this_record", r.nbad = 0>>,
         <<"C15", "panic", res.k # "panic">>,
@@ -101,6 +105,8 @@ SmallViol(r) ==
                                         /\ (res.k = "err_recinit" => r.recinit_fail_at > 0 /\ r.nrecinit >= r.recinit_fail_at)>>,
         <<"C15", "panic", res.k # "panic">>,
         <<"C16", "more_than_queue_len_plus_one_data_sets", ~isInit \/ r.nsetinit <= r.Q + 1>>,
+        \* the reader thread has never taken more than queue_len data sets beyond those whose results the consumer received
+        <<"C16", "reader_ahead_of_consumer", "lead" \notin DOMAIN r \/ r.lead <= r.Q>>,
         <<"C08", "call_did_not_return", res.k \notin {"hang", "panic"}>>,
         <<"C08", "job_still_processing_after_return", res.k \in {"hang", "panic"} \/ r.jobs_started = r.jobs_finished>>,
         <<"C08", "thread_active_after_return", res.k \in {"hang", "panic"} \/ r.late_events = 0>>
